@@ -7,7 +7,7 @@ use crate::{
     algorithms::lkh::*,
     construction::probing::repair_solution_from_unknown,
     models::{common::Profile, solution::Tour},
-    prelude::{Cost, Location, RouteContext, TransportCost},
+    prelude::{Cost, Job, Location, RouteContext, SolutionContext, TransportCost},
 };
 use rosomaxa::utils::parallel_foreach_mut;
 use std::{
@@ -80,6 +80,14 @@ impl LKHSearch {
             new_solution.solution.routes.push(route_ctx);
         });
 
+        // jobs assigned by the repair: when their route is replaced below, they must not get lost
+        let repaired = new_solution
+            .solution
+            .routes
+            .iter()
+            .flat_map(|route_ctx| route_ctx.route().tour.jobs().cloned())
+            .collect::<HashSet<_>>();
+
         // ensure routes have at least as many jobs as in original solution
         new_solution
             .solution
@@ -112,6 +120,34 @@ impl LKHSearch {
             .map(|(job, info)| (job.clone(), info.clone()))
             .collect();
         new_solution.solution.required.retain(|job| !assigned.contains(job));
+        new_solution.solution.ignored.retain(|job| !assigned.contains(job));
+
+        // a job (e.g. a reload marker) lives in exactly one place: what is not assigned goes back to the list it
+        // had in the original solution, jobs of replaced routes which were assigned by the repair are required again
+        let pending = new_solution
+            .solution
+            .required
+            .iter()
+            .chain(new_solution.solution.ignored.iter())
+            .cloned()
+            .collect::<HashSet<_>>();
+        new_solution.solution.unassigned.retain(|job, _| !pending.contains(job));
+        let is_lost = |solution: &SolutionContext, job: &Job| {
+            !assigned.contains(job)
+                && !solution.unassigned.contains_key(job)
+                && !solution.required.contains(job)
+                && !solution.ignored.contains(job)
+        };
+        orig_solution.solution.ignored.iter().for_each(|job| {
+            if is_lost(&new_solution.solution, job) {
+                new_solution.solution.ignored.push(job.clone());
+            }
+        });
+        orig_solution.solution.required.iter().chain(repaired.iter()).for_each(|job| {
+            if is_lost(&new_solution.solution, job) {
+                new_solution.solution.required.push(job.clone());
+            }
+        });
 
         // recalculate solution state if we do
         new_solution.restore();
